@@ -9,5 +9,15 @@ CALLS = ["rmatmat", "tower"]
 CORPUS = os.path.join(common.ROOT, "harness", "corpus", "c02.jsonl")
 
 
+FFT_MODULE = "ColaVerif.Properties.C02.FFT"
+FFT_CALLS = ["rmatmat", "T_matmat", "T_rmatmat", "H_matmat", "H_rmatmat", "T_dense", "H_dense", "unitary"]
+
+
+def fft_stream(ctx):
+    """cola.ops.FFT: `X @ A`, the lazy Transpose / Adjoint wrappers and the annotation Unitary (stream of c01.py, C02 calls);
+    gates the property sub-module Properties/C02/FFT.lean"""
+    return c01.fft_stream(ctx, calls=FFT_CALLS, module=FFT_MODULE)
+
+
 def run(ctx):
-    c01.run(ctx, calls=CALLS, module=MODULE, corpus=CORPUS)
+    c01.run(ctx, calls=CALLS, module=MODULE, corpus=CORPUS, extra=fft_stream)
